@@ -1000,6 +1000,51 @@ def check_c07(env, fam, L):
                                   "value": harness.safe_repr(r.value)[:300], "serialized": data, "schema": schema})
 
 
+def check_purity(env, fam, L):
+    """the input is never modified (whatever no_copy), and no_copy does not change the result (C03 / C08)"""
+    from apischema import deserialization_method
+    from vf import harness
+    from vf.gen_data import fingerprint
+    from vf.spec import canon
+
+    rng = env.rng
+    for label, expr, kind in pick_entries(env, fam):
+        ap = rng.random() < 0.3
+        al_name = rng.choice(["identity", "identity", "camel"])
+        al = _aliaser(al_name)
+        kw = {"additional_properties": ap}
+        if al:
+            kw["aliaser"] = al
+        T = L.T(expr)
+        harness.reset_all()
+        ms = {nc: harness.call(deserialization_method, T, no_copy=nc, **kw) for nc in (True, False)}
+        prog = L.program(expr)
+        if any(o.kind != "ok" for o in ms.values()):
+            continue
+        for dl, d in workload(fam, kind, rng, al, per_alt=2):
+            outs = {}
+            for nc, o in ms.items():
+                fp = fingerprint(d)
+                snapshot = harness.safe_repr(d)[:300]
+                r = harness.call(o.value, d)
+                env.count("discriminated_purity_checks")
+                env.case("disc-purity", fam.sig(), kind, nc, ap, al_name, dl.split(":")[0], nontrivial=True)
+                if fingerprint(d) != fp:
+                    env.violation({"kind": "input-mutated", "family": "discriminated", "no_copy": nc, "side": "deserialize"},
+                                  {"program": prog, "family": fam.describe(), "entry": label, "options": {"additional_properties": ap, "aliaser": al_name, "no_copy": nc}, "before": snapshot, "after": harness.safe_repr(d)[:300]})
+                    break
+                outs[nc] = r
+            if len(outs) == 2 and outs[True].kind in ("ok", "verr") and outs[False].kind in ("ok", "verr"):
+                a, b = outs[True], outs[False]
+                try:
+                    same = a.kind == b.kind and (canon(a.value) == canon(b.value) if a.kind == "ok" else sorted(map(str, a.errors)) == sorted(map(str, b.errors)))
+                except Exception:
+                    same = True
+                if not same:
+                    env.violation({"kind": "result-depends-on-option", "option": "no_copy", "family": "discriminated", "base": a.kind, "variant": b.kind},
+                                  {"program": prog, "family": fam.describe(), "entry": label, "datum": d, "no_copy_true": a.brief(), "no_copy_false": b.brief()})
+
+
 def run_family(env, check, count):
     """generate `count` families and run `check` (one of the functions above) on each"""
     import time
